@@ -335,6 +335,12 @@ class Monitor:
             comment_rule = r.name in ("comment", "block_comment", "whitespace") or "comment" in type(r).__mro__[1].__name__
             if not removal_ok:
                 self.add("C02:comments_survive", self.comments_identical(bcomm, acomm, exact=not comment_rule), r)
+            else:
+                # a rule documented to remove comments removes whole comments: a delimited comment never loses only one delimiter
+                nb = lambda sn, cls: sum(1 for t, _ in sn if isinstance(t, cls))
+                bal_b = nb(bcomm, delimited_comment.beginning) == nb(bcomm, delimited_comment.ending)
+                bal_a = nb(acomm, delimited_comment.beginning) == nb(acomm, delimited_comment.ending)
+                self.add("C02:delimited_comment_removed_whole_or_not_at_all", bal_a or not bal_b, r)
             self.add("C02:comment_followed_by_line_break", self.comments_end_lines(after) <= self.comments_end_lines(before), r)
         # ---- C07
         if "C07" in self.want and phase in (2, 4, 5, 6) and not structural:
